@@ -223,7 +223,7 @@ def replay_on_refined(sc, runs, check_inv=False):
 
 
 OPS_PLAIN = ["i", "p", "c", "e"]
-OPS_ACC = ["ir", "iw", "pr", "pw", "fr", "fw"]
+OPS_ACC = ["ir", "iw", "pr", "pw", "fr", "fw", "fra", "ira", "pra"]   # ..a: the same reader-acquiring call given an `accessor` object
 
 
 def gen_scenario(rng, tier):
@@ -315,6 +315,8 @@ def families(tier):
             {"hash": ("id", 0), "pre": [5], "progs": [["fw:5", "r"], ["e:5"], ["fr:5", "r"]]},
             {"hash": ("id", 0), "pre": [5], "progs": [["fr:5", "x"], ["fr:5", "r"], ["fr:5", "r"]]},
             {"hash": ("id", 0), "pre": [5], "progs": [["fw:5", "x"], ["e:5"], ["fr:5", "x"]]},
+            {"hash": ("id", 0), "pre": [5], "progs": [["fra:5", "x"], ["fr:5", "r"], ["fra:5", "r"]]},
+            {"hash": ("id", 0), "pre": [], "progs": [["ira:5", "x"], ["fr:5", "r"], ["pra:5", "x"]]},
         ], ["erase-waits-for-accessor", "exclude-waits-for-accessor", "upgrade-inplace:TbbVerif.C10.Pc.xUpg"]),
         "erase-by-accessor with a stale mask: the table grows and the key's new bucket is rehashed between exclude()'s mask load and its bucket lock": ([
             {"hash": ("id", 0), "pre": BIG, "progs": [["fr:259", "x"], ["i:600", "c:259"]]},
